@@ -121,7 +121,7 @@ ENTRY(h_c16){
     const Idx space(cfg);
     Tree tree(cfg, gP.pos, a0, a1 != 0);
     long leafIdx[NPART]; leafIndexes(space, leafIdx);
-    checkLookup(tree, space, leafIdx);
+    if(a2) checkLookupSparse(tree, space, leafIdx); else checkLookup(tree, space, leafIdx);
 }
 
 // C17: bulk export before and after execute (and after rebuild when a2)
@@ -340,13 +340,17 @@ ENTRY(h_c14){
     Algo algo(cfg);
     algo.execute(tree);
     using CellGroup = typename Tree::CellGroupClass; using LeafGroup = typename Tree::LeafGroupClass;
+    // every word of every expansion is made non-trivial, so that a view that looks for its trailer in the wrong place cannot read zeros by luck
+    tree.applyToAllCells([&](const long lv, auto&& hdr, auto&&, auto&& lOpt){ for(int w = 1; w < LCELLN; ++w) lOpt->get()[w] = U(0x0101010101010101UL) * U(w + 1) + U(hdr.spaceIndex) + U(lv); });
     bool cacc = true, cval = true, pacc = true, pval = true, opok = true;
     for(long level = 0; level < HEIGHT; ++level){
         for(auto& g : tree.getCellGroupsAtLevel(level)){
             auto ps = g.getDataPtrsAndSizes();
             unsigned char* b0 = copyBuf(ps[0]); unsigned char* b1 = copyBuf(ps[1]); unsigned char* b2 = copyBuf(ps[2]);
             {
-                CellGroup v(b0, ps[0].second, b1, ps[1].second, b2, ps[2].second, true);
+                // alternate between the two raw-memory constructors (six arguments / array of pointer-size pairs)
+                const std::array<std::pair<unsigned char*, size_t>, 3> arr{{{b0, ps[0].second}, {b1, ps[1].second}, {b2, ps[2].second}}};
+                CellGroup v = (level % 2 == 0) ? CellGroup(arr, true) : CellGroup(b0, ps[0].second, b1, ps[1].second, b2, ps[2].second, true);
                 cacc = cacc && v.getNbCells() == g.getNbCells() && v.getStartingSpacialIndex() == g.getStartingSpacialIndex() && v.getEndingSpacialIndex() == g.getEndingSpacialIndex();
                 for(long i = 0; i < g.getNbCells() && cacc; ++i){
                     cacc = cacc && v.getCellSpacialIndex(i) == g.getCellSpacialIndex(i);
@@ -357,6 +361,9 @@ ENTRY(h_c14){
                     // element accessors stay inside their buffers
                     const unsigned char* pm = reinterpret_cast<const unsigned char*>(&v.getCellMultipole(i));
                     cacc = cacc && pm >= b1 && pm + sizeof(MCell) <= b1 + ps[1].second;
+                    const unsigned char* pl = reinterpret_cast<const unsigned char*>(&v.getCellLocal(i));
+                    cacc = cacc && pl >= b2 && pl + sizeof(LCell) <= b2 + ps[2].second;
+                    for(int w = 1; w < LCELLN; ++w) cval = cval & (v.getCellLocal(i)[w] == g.getCellLocal(i)[w]);
                 }
             }
             delete[] b0; delete[] b1; delete[] b2;
